@@ -110,7 +110,7 @@ pub fn gen_fields(max: usize, dup_bias: bool) -> Vec<Field> {
     v
 }
 pub fn gen_body(allow_empty_pieces: bool) -> Body {
-    let sizes = [0usize, 1, 5, 63, 64, 300, 16383, 16384, 20000, 65535, 65536];
+    let sizes = [0usize, 1, 5, 63, 64, 300, 16383, 16384, 20000, 65535, 65536, 65537, 70_000];
     let n = if chance(1, 3) { draw_usize(100) } else { sizes[draw_usize(sizes.len())] };
     let data: Vec<u8> = {
         let seed = draw(251) as usize;
@@ -636,6 +636,9 @@ pub struct Outcome {
     pub pending: Vec<String>,
     pub panic: Option<exec::PanicInfo>,
     pub steps: u64,
+    /// unidirectional streams (side, id) that an endpoint had opened and that carried no byte at the first exact
+    /// quiescence - every task parked, every write the transport had pended released again, nothing closed yet
+    pub untyped_uni_at_quiescence: Vec<(u8, u64)>,
 }
 
 pub fn run_exchanges(setup: Setup, cfg: NetCfg, scarce_credit: bool) -> Outcome {
@@ -656,7 +659,22 @@ pub fn run_exchanges(setup: Setup, cfg: NetCfg, scarce_credit: bool) -> Outcome 
     let release = Rc::new(Gate::default());
     spawn_client(&mut ex, &net, &rec, &setup, &release);
     let mut stop = ex.run(&mut NetWorld(net.clone()));
+    let mut untyped_uni_at_quiescence = vec![];
     if stop == Stop::Quiescent {
+        {
+            let n = net.lock().unwrap();
+            if n.closes.is_empty() && n.sides.iter().all(|s| s.fault.is_none() && s.pending_close.is_none()) {
+                for side in [crate::net::CLIENT, crate::net::SERVER] {
+                    for id in &n.sides[side as usize].opened_uni {
+                        if let Some(d) = n.dir_ref(*id, side) {
+                            if d.sent.is_empty() && !d.tx_stalled {
+                                untyped_uni_at_quiescence.push((side, *id));
+                            }
+                        }
+                    }
+                }
+            }
+        }
         // closing phase: the client lets go of its last SendRequest
         obs::ev("phase.release", 0, 0);
         release.open();
@@ -666,7 +684,7 @@ pub fn run_exchanges(setup: Setup, cfg: NetCfg, scarce_credit: bool) -> Outcome 
     let panic = ex.panic.clone();
     let steps = ex.steps;
     drop(ex);
-    Outcome { net, rec, setup, stop, pending, panic, steps }
+    Outcome { net, rec, setup, stop, pending, panic, steps, untyped_uni_at_quiescence }
 }
 
 /// Result of `accept_or_gate`
